@@ -137,13 +137,14 @@ class LObj(HObj):
     symbolic sequence `sym` (Sym of kind ('seq', k)).  For a deque, index 0 is
     the *left* end."""
 
-    def __init__(self, items=None, sym=None, flavor='list'):
+    def __init__(self, items=None, sym=None, flavor='list', maxlen=None):
         self.items = items
         self.sym = sym
         self.flavor = flavor
+        self.maxlen = maxlen  # deque(maxlen=n) or None
 
     def clone(self):
-        return LObj(list(self.items) if self.items is not None else None, self.sym, self.flavor)
+        return LObj(list(self.items) if self.items is not None else None, self.sym, self.flavor, self.maxlen)
 
     def __repr__(self):
         return f'LObj<{self.flavor}>({self.items if self.items is not None else self.sym})'
